@@ -59,6 +59,8 @@ for _pid, _l in {"C01": [("scale-msgs", 5), ("reuse-after-prune", 32)], "C02": [
                  "C07": [("scale-time", 5), ("np-cross", 48)], "C08": [("reuse-after-prune", 32)], "C11": [("scale-apps", 3), ("stale-ns", 24), ("reuse-after-prune", 32)], "C12": [("scale-subs", 4), ("scale-time", 5), ("late-sweep", 48), ("stale-ns", 24), ("dst", 6)],
                  "C13": [("scale-msgs", 5), ("kf-q", 120), ("two-app", 80), ("dst", 6)], "C15": [("scale-time", 5)], "C17": [("scale-name", 3)]}.items():
     PROPS[_pid]["streams"] = PROPS[_pid]["streams"] + _l
+for _pid in ("C01", "C02", "C03", "C07", "C08", "C09", "C14"):
+    PROPS[_pid]["streams"] = PROPS[_pid]["streams"] + [("pipeline", 32)]
 import metamorphic as MM
 for _pid in MM.CHECKS:
     PROPS[_pid]["extra"] = MM.extra(_pid)
@@ -176,7 +178,8 @@ def evaluate(pid, results, known_for):
 ASSUME_HISTORY = [
     "SQLite 3.40 atomic commit, statement atomicity, immediate PK/FK enforcement, AUTOINCREMENT, BINARY text comparison (modelled in Store.v; observed through a second reader)",
     "Python sqlite3 implicit-transaction rule; Twisted LoopingCall/TimerService schedule (driven for real with MemoryReactorClock)",
-    "autobahn framing/handshake bypassed: onOpen/onMessage/onClose are called directly",
+    "autobahn framing/handshake bypassed: onConnect/onOpen/onMessage/onClose are called directly; one reactor turn (advance(0) of the service's "
+    "MemoryReactorClock, which is also the factory's reactor) passes after every event unless the event is tagged same_turn",
     "os.urandom draws are pairwise distinct (fresh_oracle); random.choice/randrange may return anything in range",
     "times are dyadic rationals (multiples of 1/8 s) on which float arithmetic is exact",
     "correspondence model<->code is differential testing (finite, seed-dependent), not proof",
